@@ -69,6 +69,21 @@ func Hostile(c *sexp.S, out *Out) {
 		}
 		return one(), nil
 	})
+	// a function that puts the runner back to where it started while Next is evaluating the expression that called it (a
+	// "load game" action; once per case: a host that rewinds every time never lets the dialogue get anywhere). Asking the
+	// runner for the next element from inside a function is NOT tried: a runner is not re-entrant, as it is not safe for
+	// concurrent use.
+	start := h.dr.Snapshot()
+	rewound := false
+	h.dr.AddFunction("rewind", func(a []*variable.Value) (*variable.Value, error) {
+		if !rewound {
+			rewound = true
+			if err := h.dr.RestoreAt(start); err != nil {
+				return nil, err
+			}
+		}
+		return one(), nil
+	})
 	out.Put("LOAD OK")
 	for _, op := range c.Find("ops").Args() {
 		a := op.Args()
